@@ -159,6 +159,8 @@ def work(case: dict) -> dict:
     except Exception as e:
         obs["exc"] = f"{type(e).__name__}: {e}"[:300]
         return obs
+    if case.get("literal"):
+        obs["literal_ok"] = case["literal"] in full
     obs["seq"], obs["glued"] = sequence(full)
     obs["cellseq"], obs["cellglued"] = sequence("\n".join(cells))
     obs["full"] = dict(Counter(find(full)))
@@ -196,6 +198,8 @@ def judge(tokens: dict, obs: dict) -> list[tuple[str, str]]:
         out.append(("preceding-text-lost", f"{len(lost_b)} visible token(s) before the first removed construct missing, e.g. {lost_b[:3]}"))
     if dup:
         out.append(("duplicated", f"{len(dup)} visible token(s) extracted more than once, e.g. {dup[:3]}"))
+    if obs.get("literal_ok") is False and not (lost_b or lost_v):
+        out.append(("text-altered", "the document's last words are extracted, but not literally"))
     if foreign:
         out.append(("foreign-token", f"token(s) that are not in the document: {foreign[:3]}"))
     return out
@@ -317,6 +321,9 @@ def build_cases(run, bodies, ref_share: float = 1.0) -> tuple[list[dict], dict]:
                     meta[cid] = {"body": bi, "carrier": carrier, "role": role, "group": group, "tokens": tk, "params": pp, "doc": dd,
                                  "risky": grisky or body.risky}
                     cases.append({"cid": cid, "carrier": carrier, "doc": dd, "params": pp})
+                    if body.literal:
+                        cases[-1]["literal"] = body.literal
+                        meta[cid]["literal"] = body.literal
     return cases, meta
 
 
@@ -463,6 +470,7 @@ def main(run) -> None:
         G.systematic_clean(rng),
         G.systematic_epub_only(rng),
         G.systematic_preambles(rng),
+        G.systematic_bare_tails(rng),
         G.quiet_fragments(rng, run.n(30, 400)),
         G.systematic_risky(rng),
         G.random_clean(rng, run.n(750, 30000)),
@@ -506,7 +514,7 @@ def main(run) -> None:
     need = [f"pos:{p}" for p in G.POSITIONS] + [f"attr:{a}" for a in G.ATTR_KINDS] + [f"case:{k}" for k in G.CASE_KINDS] + \
            [f"close:{k}" for k in G.CLOSE_KINDS] + [f"c:raw:{k}" for k in G.RAW_KINDS] + [f"c:normal:{k}" for k in G.NORMAL_KINDS] + \
            [f"c:comment:{k}" for k in G.COMMENT_KINDS] + [f"c:embed:{k}" for k in G.EMBED_KINDS] + ["c:normal:selfclosed-removable"] + \
-           [f"tail:{k}" for k in G.TAIL_KINDS] + [f"trunc:{k}" for k in G.TRUNC_KINDS] + list(G.FILLER_FEATURES) + [f"long:{n}" for n in G.LONG_SIZES] + \
+           [f"tail:{k}" for k in G.TAIL_KINDS] + [f"trunc:{k}" for k in G.TRUNC_KINDS] + list(G.FILLER_FEATURES) + ["end:bare-text-with-ampersand"] + [f"long:{n}" for n in G.LONG_SIZES] + \
            ["c:normal:orphan-endtag", "c:raw:orphan-endtag"]
     missing = [f for f in need if run.extras["features"].get(f, 0) < 4]
     run.require("grammar_features_covered", len(need) - len(missing), len(need))
